@@ -161,6 +161,32 @@ def _handmade():
             h4.mo = MolecularOrbitals("restricted", norb, norb, occs4, mo.coeffs.copy(), mo.energies.copy(),
                                       mo.irreps, occs_aminusb=am4)
             out.append(("fchk:aminusb-zero-sum", h4))
+            # occupations that are not in aufbau order (an excited determinant): formats either write them or refuse,
+            # nothing may be re-ordered behind the caller's back
+            h6 = copy.deepcopy(h)
+            occs6 = np.zeros(norb)
+            occs6[[0, 1, 3]] = 2.0
+            h6.mo = MolecularOrbitals("restricted", norb, norb, occs6, mo.coeffs.copy(), mo.energies.copy(), mo.irreps)
+            h6.one_rdms = {}
+            out.append(("fchk:non-aufbau-restricted", h6))
+            h7 = copy.deepcopy(h)
+            occs7 = np.zeros(2 * norb)
+            occs7[[0, 2, 4]] = 1.0
+            occs7[norb:norb + 3] = 1.0
+            h7.mo = MolecularOrbitals("unrestricted", norb, norb, occs7, np.hstack([mo.coeffs, mo.coeffs]),
+                                      np.concatenate([mo.energies, mo.energies]), None)
+            h7.one_rdms = {}
+            out.append(("fchk:non-aufbau-unrestricted", h7))
+            # optional per-atom / per-coordinate arrays that only some writers touch, deliberately without the
+            # symmetries a well-behaved program would give them (a finite-difference Hessian, forces)
+            h8 = copy.deepcopy(h)
+            n3 = 3 * h8.natom
+            h8.athessian = np.arange(n3 * n3, dtype=float).reshape(n3, n3) * 1e-3 + np.eye(n3)
+            h8.atgradient = np.arange(n3, dtype=float).reshape(-1, 3) * 1e-2 - 0.03
+            h8.atfrozen = np.array([True] + [False] * (h8.natom - 1))
+            h8.atmasses = np.arange(1, h8.natom + 1, dtype=float) * 1837.0
+            h8.moments = {(1, "c"): np.array([0.1, -0.2, 0.3]), (2, "c"): np.arange(6, dtype=float) * 0.1}
+            out.append(("fchk:optional-arrays", h8))
         except Exception as exc:  # pragma: no cover
             out.append(("handmade-error:" + repr(exc)[:80], None))
         mol = IOData(atnums=np.array([8, 1, 1]), atcoords=np.array([[0, 0, 0.0], [0, 1.5, 1.1], [0, -1.5, 1.1]]),
